@@ -14,7 +14,8 @@ V = {
     "decimal(20,6)": ["1.0", "1.00", "1.5", "-1.5", "0", "0.00", "123456789.123", "-0.000001", "10", "9.999999"],
     "boolean": ["true", "false"],
     "varchar": ["''", "'a'", "'A'", "'ab'", "'b'", "' '", "'é'", "'z'", "'a '", "'10'", "'9'"],
-    "date": ["date '1970-01-01'", "date '2024-02-29'", "date '2023-03-01'", "date '0001-01-01'", "date '9999-12-31'", "date '1969-12-31'"],
+    "date": ["date '1970-01-01'", "date '2024-02-29'", "date '2023-03-01'", "date '0001-01-01'", "date '9999-12-31'", "date '1969-12-31'",
+             "date '9999-12-31' + interval '1' day", "date '9999-12-31' + interval '1' year"],      # years beyond four digits (printed with a sign)
     "timestamp": ["timestamp '1970-01-01 00:00:00'", "timestamp '2024-02-29 23:59:59'", "timestamp '1969-12-31 23:59:59'", "timestamp '2024-02-29 00:00:00'"],
     "interval": ["interval '1' day", "interval '2' day", "interval '1' month", "interval '30' day", "interval '-1' day", "interval '1' year", "interval '12' month", "interval '31' day",
                  "cast('1 hour' as interval)", "cast('3600 seconds' as interval)", "cast('1 day 1 second' as interval)", "cast('24 hours' as interval)"],
